@@ -267,7 +267,7 @@ Fixpoint run_items (fuel : nat) (c : call) (l : list item) (m : map_) (obs : lis
                    end
   end.
 Definition call_fuel (c : call) (m : map_) : nat :=
-  length m + match c with CDelete ks | CGetWithMap ks => length ks | _ => 0 end + 2.
+  S (S (length m + match c with CDelete ks | CGetWithMap ks => length ks | _ => 0 end)).
 Definition exec_call (c : call) (m : map_) : option (map_ * list Z) :=
   match run_items (call_fuel c m) c (skel_of c) m [] 0 with
   | Some (m', obs, its) => Some (m', result c obs its)
